@@ -99,7 +99,7 @@ func (Engine) Execute(t *testing.T, plan *simkit.Plan) *simkit.Result {
 		if helper == "" {
 			panic("VERIF_HELPER not set")
 		}
-		dir, err := os.MkdirTemp("/dev/shm", "verif-procsim-")
+		dir, err := simkit.MkdirTemp("/dev/shm", "verif-procsim-")
 		if err != nil {
 			panic(err)
 		}
